@@ -73,6 +73,13 @@ def _recov_cases(rng: random.Random, quick: bool) -> list[dict]:
                       "plan": [{"step": "/s3", "tag": "0", "phase": "execute", "kind": "failstop", "count": 1,
                                 "lose": [["/s2", "0"], ["/s1", "0"]], "replicate": [["/s2", "0"]]}], "max_retries": 6,
                       "expect_attempts": {"/s0/0": 1, "/s1/0": 1, "/s2/0": 1, "/s3/0": 2}})
+    # forced interleaving (see props/c19.py gated_cases): the second consumer fails while the re-execution of the shared producer is RUNNING;
+    # its recovery must use that re-execution: the producer's data was lost ONCE, it runs twice, not three times
+    from sfv.props.c19 import gated_cases
+    for g in gated_cases(quick)[:1 if quick else None]:
+        cases.append(dict(g, name="c18-" + g["name"], trace_fm=True,
+                          expect_why=("reexecuted-although-its-re-execution-was-under-way",
+                                      "its output was lost once and the second consumer failed while its re-execution was under way")))
     m = rng.choice([3, 4, 6])
     el = rng.randrange(m)
     cases.append({"name": f"soft-scatter{m}-b{el}", "shape": {"kind": "scatter", "m": m},
@@ -101,9 +108,10 @@ def judge_run(case: dict, r: dict) -> list[tuple[str, str]]:
         return fails
     for job, n in (case.get("expect_attempts") or {}).items():
         if r["attempts"].get(job, 0) > n:
-            fails.append(("reexecuted-although-a-copy-of-its-output-survived",
-                          f"{case['name']}: job {job} was executed {r['attempts'].get(job, 0)} times, expected {n}: one copy of its output was "
-                          f"deleted, a second primary copy was still present (events {[e for e in r['events'] if e[0] in ('replica', 'lose')]})"))
+            key, why = case.get("expect_why") or ("reexecuted-although-a-copy-of-its-output-survived",
+                                                  "one copy of its output was deleted, a second primary copy was still present")
+            fails.append((key, f"{case['name']}: job {job} was executed {r['attempts'].get(job, 0)} times, expected {n}: {why} "
+                               f"(timeline {[e for e in r.get('timeline', []) if e[0] in ('replica', 'lose', 'start', 'claim', 'signal', 'gate-timeout')]})"))
         elif r["attempts"].get(job, 0) < n:
             fails.append(("fewer-executions-than-expected", f"{case['name']}: job {job} executed {r['attempts'].get(job, 0)} times, expected {n}"))
     injected_exec = {}
